@@ -130,6 +130,18 @@ func shiftMatchingOneSwamp(ctx context.Context, g Gateway, in *hydrapb.ShiftMatc
 		return nil, false, status.Error(codes.InvalidArgument, predErr.Error())
 	}
 	verifhook.Point("gateway.shiftMatching.predicateBuilt")
+	{
+		// verification point inside the engine's selection step: reached each time the predicate
+		// accepts a treasure (Point is empty and inlined without the build tag verif)
+		inner := predicate
+		predicate = func(t treasure.Treasure) bool {
+			ok := inner(t)
+			if ok {
+				verifhook.Point("gateway.shiftMatching.predicateTrue")
+			}
+			return ok
+		}
+	}
 
 	treasures, capReached, err := swampInterface.CloneAndDeleteMatchingTreasures(beaconType, order, howMany, predicate, capPred, capMax)
 	if err != nil {
